@@ -7,7 +7,7 @@
 From Coq Require Import String List NArith Bool.
 From FIM Require Import Base.Str Gen.Rules Model.T7Pinned Model.T7Graph Model.T7Ops Model.T7WF Model.T7Steps
      Model.T7Rel Proofs.T7Tables Proofs.T7WFRefl Proofs.T7Units Proofs.T7Api Proofs.T7Api2 Proofs.T7Api3 Proofs.T7Api4
-     Proofs.T7RelAdd Proofs.T7Api5 Proofs.T7Api6 Proofs.T7Rem3 Proofs.T7Rem5 Proofs.T7Hist Proofs.T7Views Proofs.T7Refuted.
+     Proofs.T7RelAdd Proofs.T7Api5 Proofs.T7Api6 Proofs.T7Rem3 Proofs.T7Rem5 Proofs.T7AddNs Proofs.T7AddFac Proofs.T7Hist Proofs.T7Views Proofs.T7Refuted.
 Import ListNotations.
 
 (* ---- the tables ------------------------------------------------------------------------------------------ *)
@@ -82,25 +82,26 @@ Proof. exact WF_add_peering2. Qed.
 Print Assumptions C07_add_peering2_preserves.
 
 (* ---- the building calls ------------------------------------------------------------------------------------ *)
-(* FULL STATEMENT (false of the faithful model, see the ..._refuted theorems):
+(* UNCONDITIONAL STATEMENT (false of the faithful model, see the ..._refuted theorems and the notes):
      forall sub fl g o drawn hint, WF g -> WF (fst (step sub fl g o drawn hint))
-   PROVED for the calls listed in op_pre (Model/T7Steps.v): add_node, node.add_component, node.add_storage,
-   node.add_network_service, add_network_service without interfaces, add_link, remove_link, add_child_interface,
-   rename, set_property, unset_property -- for the library with or without the repairs (any `flags`) -- and
-   connect_interface (library with the name check 8b1a93d and the rollback 7b7379b), disconnect_interface, peer,
-   unpeer, remove_child_interface, and the removals remove_node, node.remove_component, remove_facility, remove_switch,
-   remove_network_service, node.remove_network_service (library that skips interfaces already taken away, 5286851;
-   three structural side conditions, rem_pre); whatever the outcome of the call (normal return or any exception, with
-   the partial effects made before it, including the state peer / connect_interface leave after taking a half-made
-   peering away -- the removals are shown never to fail once they have deleted something).
-   add_facility / add_switch: proved for the normal return (C07_add_facility_switch_returns_partial below); the state
-   after their rollback of a rejected later step is a removal program and is NOT proved.
-   NOT proved (covered by the wf_b evaluation on implementation snapshots only): add_network_service with interfaces,
-   port mirror. *)
-Theorem C07_step_preserves_partial :
+   PROVED, for EVERY building call of the API (the 25 constructors of `op`: add_node, remove_node, node.add_component,
+   node.add_storage, node.remove_component, add_facility, remove_facility, add_switch, remove_switch, add_network_service
+   with or without interfaces, add_port_mirror_service, remove_network_service, node.add_network_service,
+   node.remove_network_service, add_link, remove_link, connect_interface, disconnect_interface, peer, unpeer,
+   add_child_interface, remove_child_interface, rename, set_property, unset_property) under the precondition op_pre of
+   the call (Model/T7Steps.v) and whatever its outcome -- normal return or any exception with the partial effects made
+   before it, including the states the rollbacks of add_facility / add_switch / add_network_service / peer /
+   connect_interface leave; the removals are shown never to fail once they have deleted something.
+   op_pre holds: enum arguments inside their enum; the documented domain of add_link / connect / disconnect (no service
+   port handed in); what excludes exactly the signature of a recorded defect (rename / set_property('name') to a name
+   used in the scope, remove_link of a peering link, peer(a, a), a taken `<a>-<b>-link` name for peer); the repairs the
+   proof relies on, as behaviour flags read off the running library (connect: 8b1a93d + 7b7379b; removals: 5286851);
+   and three structural side conditions for the calls that remove service ports (every model the API builds has them,
+   the published rules do not state them): subs_under_dedicated, ns_cp_connects, one_sp_peer. *)
+Theorem C07_step_preserves :
   forall sub fl g o drawn hint g' out, WF g -> op_pre fl g o = true -> step sub fl g o drawn hint = (g', out) -> WF g'.
-Proof. exact step_preserves_partial. Qed.
-Print Assumptions C07_step_preserves_partial.
+Proof. exact step_preserves. Qed.
+Print Assumptions C07_step_preserves.
 
 (* the calls that make or take away a service port with its link, one by one and with their hypotheses spelled out.
    connect_interface of an interface that is not a service port, by a library that checks the derived names: the
@@ -211,20 +212,35 @@ Theorem C07_new_owned_service_preserves :
 Proof. exact api_new_service_owned. Qed.
 Print Assumptions C07_new_owned_service_preserves.
 
-(* add_facility / add_switch build node + service + interfaces, each element with its owner edge: whenever the call
-   returns normally the result is well-formed (no precondition: a repeated interface name is refused by the code) *)
-Theorem C07_add_facility_switch_returns_partial :
-  forall sub fl g o drawn hint g', WF g ->
-    (match o with OAddFacility _ _ _ | OAddSwitch _ _ _ => True | _ => False end) ->
-    step sub fl g o drawn hint = (g', None) -> WF g'.
-Proof. exact step_facility_switch_returns. Qed.
-Print Assumptions C07_add_facility_switch_returns_partial.
+(* add_facility / add_switch build node + service + interfaces, each element with its owner edge; a rejected later step
+   (e.g. a repeated interface name) takes the node away again.  Every outcome, no precondition: nothing but the call
+   itself has touched the new node, so its interfaces carry no link and the removal strands nothing *)
+Theorem C07_add_facility_preserves :
+  forall sub name nid ifnames s s' r, WF (sg s) -> t_add_facility sub name nid ifnames s = (s', r) -> WF (sg s').
+Proof. exact api_add_facility. Qed.
+Print Assumptions C07_add_facility_preserves.
+Theorem C07_add_switch_preserves :
+  forall sub name nid nports s s' r, WF (sg s) -> t_add_switch sub name nid nports s = (s', r) -> WF (sg s').
+Proof. exact api_add_switch. Qed.
+Print Assumptions C07_add_switch_preserves.
+(* add_network_service with interfaces (and add_port_mirror_service): the service, one connect_interface per interface;
+   a failure disconnects what was connected and removes the service (16ce105).  The new service owns only the service
+   ports this call made, each peered with the interface it was made for *)
+Theorem C07_add_network_service_preserves :
+  forall fl sub name sid nstype ifs s s' r,
+    WF (sg s) -> subs_under_dedicated (sg s) = true -> type_allowed KNS nstype = true ->
+    fl_connect_names fl = true -> fl_connect_undo fl = true ->
+    (forall j, In j ifs -> cls_is (sg s) j KCP = true /\ typ_is (sg s) j sServicePort = false) ->
+    t_add_ns fl sub name sid nstype ifs s = (s', r) -> WF (sg s').
+Proof. exact api_add_ns. Qed.
+Print Assumptions C07_add_network_service_preserves.
 
-(* all histories of proved calls, by induction over the history, from any well-formed model *)
-Theorem C07_all_histories_partial :
+(* all histories of calls whose preconditions hold along the way, by induction over the history, from any well-formed
+   model -- in particular from the empty one *)
+Theorem C07_all_histories :
   forall sub fl h g, WF g -> pre_along sub fl g h = true -> WF (run_hist sub fl g h).
-Proof. exact histories_partial. Qed.
-Print Assumptions C07_all_histories_partial.
+Proof. exact histories. Qed.
+Print Assumptions C07_all_histories.
 Theorem C07_empty_model_well_formed : WF empty_graph.
 Proof. exact WF_empty. Qed.
 Print Assumptions C07_empty_model_well_formed.
@@ -284,14 +300,15 @@ Proof. exact viewonly_is_read_only. Qed.
 Print Assumptions C07_viewonly_read_methods.
 
 (* ---- non-vacuity ------------------------------------------------------------------------------------------- *)
-(* a model built by calls outside the proved set (component with interfaces, service with a connection) ... *)
-Definition ex_base : graph := run_hist false flags_off empty_graph
+(* a model with components and a connected service ... *)
+Definition base_hist : list hstep :=
   [(OAddNode (S "n1") None (S "VM"), [S "u1"], []);
    (OAddComponent (S "u1") (S "c1") None (S "SmartNIC") (S "ConnectX-6") None None, [S "u2"; S "u3"; S "u4"; S "u5"], []);
    (OAddComponent (S "u1") (S "c2") None (S "SharedNIC") (S "ConnectX-6") None None, [S "u6"; S "u7"; S "u8"], []);
    (OAddNS (S "s1") None (S "L2Bridge") [S "u7"], [S "u9"; S "u10"; S "u11"], [])].
-(* ... extended by a history of proved calls whose preconditions all hold: the hypothesis of
-   C07_all_histories_partial is satisfied by a non-trivial history (20 elements at the end) *)
+Definition ex_base : graph := run_hist false flags_off empty_graph base_hist.
+(* ... extended by a history of calls whose preconditions all hold: the hypothesis of C07_all_histories is satisfied by
+   a non-trivial history (20 elements at the end) *)
 Definition ex_hist : list hstep :=
   [(OAddNode (S "n2") None (S "Server"), [S "v1"], []);
    (ONodeAddNS (S "v1") (S "ns") None (S "P4"), [S "v2"], []);
@@ -341,6 +358,25 @@ Example C07_histories_hypothesis_satisfiable_removals :
   map (fun k => length (gnodes (run_hist false flags_on ex_base (firstn k ex_hist3)))) [8; 9; 10; 11; 12] = [24; 16; 15; 10; 2] /\
   map nid (gnodes (run_hist false flags_on ex_base ex_hist3)) = [S "u9"; S "v2"] /\
   wf_b (run_hist false flags_on ex_base ex_hist3) = true.
+Proof. vm_compute. repeat split. Qed.
+(* ... and from the EMPTY model: the base, a facility, a switch, a facility whose repeated interface name is refused and
+   rolled back (19 elements before and after), a service over a facility port and a switch port, a port mirror service,
+   and the removal of facility and switch with what was connected to them *)
+Definition fac_hist : list hstep :=
+  [(OAddFacility (S "f1") None (Some [S "a"; S "b"]), [S "f1"; S "f2"; S "f3"; S "f4"], []);
+   (OAddSwitch (S "w1") None 2, [S "w1"; S "w2"; S "w3"; S "w4"], []);
+   (OAddFacility (S "f2") None (Some [S "a"; S "a"]), [S "x1"; S "x2"; S "x3"; S "x4"], []);
+   (OAddNS (S "s9") None (S "L2STS") [S "f3"; S "w3"], [S "y1"; S "y2"; S "y3"; S "y4"; S "y5"], []);
+   (OAddPM (S "pm") None (S "w4"), [S "z1"; S "z2"; S "z3"], []);
+   (ORemoveFacility (S "f1"), [], []);
+   (ORemoveSwitch (S "w1"), [], [])].
+Example C07_histories_from_the_empty_model :
+  pre_along false flags_on empty_graph (base_hist ++ fac_hist) = true /\
+  map (fun k => length (gnodes (run_hist false flags_on empty_graph (firstn k (base_hist ++ fac_hist))))) [4; 5; 6; 7; 8; 9; 10; 11]
+    = [11; 15; 19; 19; 24; 27; 21; 13] /\
+  snd (step false flags_on (run_hist false flags_on empty_graph (firstn 6 (base_hist ++ fac_hist)))
+         (OAddFacility (S "f2") None (Some [S "a"; S "a"])) [S "x1"; S "x2"; S "x3"; S "x4"] []) = Some ETopology /\
+  wf_b (run_hist false flags_on empty_graph (base_hist ++ fac_hist)) = true.
 Proof. vm_compute. repeat split. Qed.
 (* a closed removal set that is not trivial: the component c1 with its service, ports and sub-interface *)
 Example C07_closed_removal_satisfiable :
